@@ -444,7 +444,7 @@ type calcLine struct {
 	taxes tax.Set
 }
 
-func (l *calcLine) GetTaxes() tax.Set     { return l.taxes }
+func (l *calcLine) GetTaxes() tax.Set    { return l.taxes }
 func (l *calcLine) GetTotal() num.Amount { return l.total }
 
 func buildOperand(op Operand, cur currency.Code) (*tax.Total, error) {
